@@ -22,7 +22,8 @@ RULE = ("case = generated 2D/3D plotfile x drawn level limit x all C04 storage-f
         "bool(Taster(dir, nofail=True)) is true, every box of every validated level is read through "
         "PlotfileCooker(dir)[:][lv][b] (and one multi-box selection through the pool) and must return without "
         "error, with shape (index extent from the level header, nfields), bit-equal to the payload of the FAB the "
-        "independent scanner finds in the recorded file under that index range. evaluations = cases (worlds); "
+        "independent scanner finds (by keyword search) in the recorded file under that index range, and that FAB "
+        "must be complete (its payload ends before the next FAB header / end of file). evaluations = cases (worlds); "
         "non-trivial = an edited tree was accepted by taste and read back; distinct = hash(world, limit, sites)")
 ASSUMPTIONS = ["nothing is demanded when taste says bad", "when no FAB in the recorded file names the box's index "
                "range the reader's answer is not judged here (that is C04's business)"]
@@ -58,10 +59,18 @@ def read_back(ctx, sig, tree, m, limit, lim_arg, descs):
             fp = os.path.join(ldir, fname)
             want = None
             if os.path.isfile(fp):
-                scanned, tiles = damage.scan_lenient(fp)
+                scanned, fsize = damage.scan_by_search(fp)
                 match = [s for s in scanned if (s[3], s[4]) == idx[b]]
                 if len(match) == 1:
                     pos, hl, nb, lo, hi, nc = match[0]
+                    nxt = min([s[0] for s in scanned if s[0] > pos] + [fsize])
+                    if pos + hl + nb > nxt:
+                        # the FAB that names this box is cut short: the next FAB header (or the end of the
+                        # file) comes before its last value, so no reader can return "the values of the FAB"
+                        raise Violation({**sig, "oracle": "accepted-but-fab-incomplete"},
+                                        f"{what}: level {lv} box {b}: the FAB named {idx[b]} in {fname} at byte {pos} "
+                                        f"needs {nb} payload bytes but only {nxt - pos - hl} lie before the next FAB "
+                                        f"header / end of file; what the reader returns for it is not its payload")
                     with core._REAL_OPEN(fp, "rb") as f:
                         f.seek(pos + hl)
                         raw = f.read(nb)
